@@ -366,6 +366,16 @@ UNITS['U27k'] = dict(
                  'the operators behind the nodes are U19 (NullVecLike count slice, Filter*, NullableFilter*) and U13k (NULL column window)'],
     not_covered=['the other call sites of null_vec_like (group-by placeholders)', 'the ASTBuilder proc-macro'])
 
+UNITS['U28k'] = dict(
+    kind='kani', crate='kani/U28', timeout_s=900, mem_gb=8, jobs=3,
+    title='BOUNDED (2, 3, 4 group-by columns): batch_merging::combine, aggregation branch - the plan that merges the grouping keys of two partial results (slice) with real unify_types / null_to_val',
+    harnesses=[dict(name='proofs::%s_group_by_columns' % w, bounded='%d group-by columns at fixed positions, any limit, unwind 7' % n, unwind=7, clause='partition(key0) -> subpartition(key1..n-2 in order) -> merge_deduplicate_partitioned(key n-1) -> merge_drop replay on keys 0..n-2; outputs in key order', fn='combine[slice: >= 2 group-by columns]')
+               for (w, n) in [('two', 2), ('three', 3), ('four', 4)]]
+    + [dict(name='proofs::vx_canary', expect_fail=True)],
+    assumptions=['A-astbuilder: planner methods partition / subpartition / merge_deduplicate_partitioned / merge_drop / cast are recording stand-ins for the generated node constructors',
+                 'the kernels behind the nodes are U10 (merge_deduplicate*, partition, subpartition are partly covered there) and U09m'],
+    not_covered=['more than 4 group-by columns', 'key columns of different types on the two sides (casts)', 'the single-key and no-key branches', 'the ORDER BY merge branch of combine'])
+
 UNITS['U24k'] = dict(
     kind='kani', crate='kani/U24', timeout_s=600, mem_gb=12, jobs=2,
     title='BOUNDED (names <= 2 ASCII characters): storage.rs sanitize_table_name - cleaning steps after lower-casing (slice) and the verbatim-or-digest decision (expression slice)',
@@ -412,7 +422,7 @@ PROPS = {
                 level_note='A-bitbuffer, A-ind-scheme, A-capnp; bounded parts are reported under coverage.bounded and not counted as discharged obligations',
                 technique='contract-based deductive verification (Kani: complete induction step + bounded harnesses) of extracted slices and of the unmodified sub-crate',
                 assumptions=[], not_covered=['capnp transport', 'bitbuffer internals', 'server::encode_column dispatch']),
-    'C02': dict(level='proof', units=['U10', 'U09k', 'U09m', 'U13k', 'U20k'],
+    'C02': dict(level='proof', units=['U10', 'U09k', 'U09m', 'U13k', 'U20k', 'U28k'],
                 level_text='Verus proofs of the merge kernels that combine per-partition results (sorted, provenance, left-biased, nothing skipped), complete Kani proofs of cross-partition aggregate combination and limit arithmetic',
                 level_note='per-partition planning, executor streaming, disk read scheduling and thread count are glue and not covered: the check catches a broken merge/combine primitive, not a broken plan',
                 technique='contract-based deductive verification (Verus + Kani complete harnesses) of extracted functions',
